@@ -219,6 +219,16 @@ loop:
 					continue
 				}
 
+				if ad.conn != nil && ad.conn.IsClosed() {
+					// The connection this dial produced has been closed since (the worker
+					// outlives it while another request is still pending on other addresses).
+					// Handing it out would give the caller a dead connection without an
+					// error: forget the dial and dial the address again for this request.
+					delete(w.trackedDials, string(adelay.Addr.Bytes()))
+					todial = append(todial, adelay.Addr)
+					continue
+				}
+
 				if ad.conn != nil {
 					// dial to this addr was successful, complete the request
 					req.resch <- dialResponse{conn: ad.conn}
